@@ -187,6 +187,8 @@ fn main() {
         HostReplyClose { segs: Vec<Vec<u8>> },
         /// the host answers status polls correctly but late: each poll round outlasts the key keeper's poll interval
         HostReplySlow { delay_ms: u64 },
+        /// the process is out of file descriptors for a moment while a client connects (accept() fails with EMFILE)
+        FdShortage { ms: u64 },
         /// a rule document (as the host could deliver it) in force for IMDS, then a request from alice
         Rules { doc: Value },
         /// wake-up notifications (what a `/provision` query with the notify header sends) arriving at each
@@ -351,6 +353,9 @@ fn main() {
     for delay_ms in [30u64, 60, 300] {
         cases.push((json!({"kind": "host-status-reply-late", "delay_ms": delay_ms, "poll_interval_ms": 15}), Case::HostReplySlow { delay_ms }));
     }
+    for ms in [20u64, 60] {
+        cases.push((json!({"kind": "out-of-file-descriptors-while-a-client-connects", "ms": ms}), Case::FdShortage { ms }));
+    }
     // (6) wake-up notifications at every 0.125 ms offset across (and past) the key keeper's 15 ms poll interval
     for round in 0..if thorough { 8 } else { 3 } {
         let offsets_us: Vec<u64> = (0..=160u64).map(|i| i * 125).collect();
@@ -492,6 +497,64 @@ fn main() {
                 *env.ws_reply.lock().unwrap() = segs.clone();
                 let _ = env.poll_key_keeper();
                 let _ = env.provision_query();
+                std::thread::sleep(Duration::from_millis(20));
+            }
+            Case::FdShortage { ms } => {
+                // the client's socket exists (and is bound, its record written) before the shortage; every free descriptor
+                // number below the highest one in use is filled and the soft limit is lowered to it: the listener's accept()
+                // fails with EMFILE until the limit is restored; afterwards this client and later ones are served
+                let p = env.port();
+                env.w.inject_audit(p, &root_rec);
+                let fd = unsafe { libc::socket(libc::AF_INET, libc::SOCK_STREAM | libc::SOCK_CLOEXEC, 0) };
+                let one: libc::c_int = 1;
+                let mut addr: libc::sockaddr_in = unsafe { std::mem::zeroed() };
+                addr.sin_family = libc::AF_INET as u16;
+                addr.sin_port = p.to_be();
+                addr.sin_addr.s_addr = u32::from_ne_bytes([127, 0, 0, 1]);
+                unsafe {
+                    libc::setsockopt(fd, libc::SOL_SOCKET, libc::SO_REUSEADDR, &one as *const _ as *const libc::c_void, 4);
+                    if libc::bind(fd, &addr as *const _ as *const libc::sockaddr, std::mem::size_of::<libc::sockaddr_in>() as u32) != 0 {
+                        vcommon::result::machinery("cannot bind the client socket of the descriptor-shortage case");
+                    }
+                }
+                let max_fd = std::fs::read_dir("/proc/self/fd").map(|d| d.flatten().filter_map(|e| e.file_name().to_string_lossy().parse::<i32>().ok()).max().unwrap_or(64)).unwrap_or(64);
+                let mut fillers: Vec<i32> = Vec::new();
+                loop {
+                    let f = unsafe { libc::open(b"/dev/null\0".as_ptr() as *const libc::c_char, libc::O_RDONLY | libc::O_CLOEXEC) };
+                    if f < 0 {
+                        break;
+                    }
+                    fillers.push(f);
+                    if f > max_fd {
+                        break;
+                    }
+                }
+                let top = fillers.iter().cloned().max().unwrap_or(max_fd).max(max_fd);
+                let mut lim: libc::rlimit = unsafe { std::mem::zeroed() };
+                unsafe { libc::getrlimit(libc::RLIMIT_NOFILE, &mut lim) };
+                let saved = lim.rlim_cur;
+                lim.rlim_cur = (top + 1) as libc::rlim_t;
+                unsafe { libc::setrlimit(libc::RLIMIT_NOFILE, &lim) };
+                let mut dst: libc::sockaddr_in = unsafe { std::mem::zeroed() };
+                dst.sin_family = libc::AF_INET as u16;
+                dst.sin_port = 3080u16.to_be();
+                dst.sin_addr.s_addr = u32::from_ne_bytes([127, 0, 0, 1]);
+                let rc = unsafe { libc::connect(fd, &dst as *const _ as *const libc::sockaddr, std::mem::size_of::<libc::sockaddr_in>() as u32) };
+                std::thread::sleep(Duration::from_millis(*ms));
+                lim.rlim_cur = saved;
+                unsafe { libc::setrlimit(libc::RLIMIT_NOFILE, &lim) };
+                for f in fillers {
+                    unsafe { libc::close(f) };
+                }
+                if rc != 0 {
+                    unsafe { libc::close(fd) };
+                    vcommon::result::machinery("the client of the descriptor-shortage case could not connect");
+                }
+                use std::os::fd::FromRawFd;
+                let mut c = Client::new(unsafe { std::net::TcpStream::from_raw_fd(fd) });
+                let raw = build_request("GET", "/plain", &[("Host", b"h")], None, None);
+                got_response = Some(c.send(&raw).map_err(|e| e.to_string()).and_then(|_| c.read_response(false, Duration::from_secs(5)).map(|m| m.status())));
+                c.close();
                 std::thread::sleep(Duration::from_millis(20));
             }
             Case::HostReplySlow { delay_ms } => {
